@@ -193,7 +193,14 @@ func RunLife(sc LifeScenario) (evs []Ev, inconclusive string) {
 		log(Ev{"e": "stop.ret", "who": who, "q": atomic.AddInt64(&seq, 1), "ms": time.Since(t0).Milliseconds()})
 	}
 	watchdog := time.AfterFunc(60*time.Second, func() {
-		log(Ev{"e": "deadlock", "q": atomic.AddInt64(&seq, 1)})
+		// nothing has finished for a minute: record where every goroutine stands
+		buf := make([]byte, 1<<20)
+		n := runtime.Stack(buf, true)
+		st := string(buf[:n])
+		if len(st) > 24000 {
+			st = st[:24000]
+		}
+		log(Ev{"e": "deadlock", "q": atomic.AddInt64(&seq, 1), "stacks": st})
 	})
 	defer watchdog.Stop()
 	switch sc.Directed {
